@@ -113,7 +113,10 @@ func TestC07Random(t *testing.T) {
 	typeOf := map[string]int{"n": fmtT, "m": int(eventlogger.NodeTypeFormatterFilter), "s": sinkT, "n ": fmtT, "S": sinkT}
 	pidPool := []string{"p", "q", "p", "q", "x/p", "p ", " p", "P"}
 	opGen := rapid.Custom(func(t *rapid.T) model.Op {
-		switch rapid.SampledFrom([]int{0, 0, 0, 1, 1, 1, 2, 3, 4}).Draw(t, "k") {
+		switch rapid.SampledFrom([]int{0, 0, 0, 1, 1, 1, 2, 3, 4, 5}).Draw(t, "k") {
+		case 5:
+			// thresholds above, at and below the number of pipelines: they decide Send's error, never who processes the event
+			return model.Op{K: rapid.SampledFrom([]string{"thr", "thrsinks"}).Draw(t, "thrKind"), ET: rapid.SampledFrom(ets).Draw(t, "thrET"), V: rapid.SampledFrom([]int{0, 1, 2, 3, 7}).Draw(t, "thrV")}
 		case 0:
 			id := rapid.SampledFrom(ids).Draw(t, "n")
 			return model.Op{K: "regnode", N: id, NT: typeOf[id], Pol: rapid.IntRange(0, 3).Draw(t, "pol"), Dress: rapid.SampledFrom([]int{0, 0, 1, 2, 3, 4}).Draw(t, "dress"), Reuse: rapid.IntRange(0, 3).Draw(t, "reuse") == 0,
